@@ -117,7 +117,10 @@ func c09Babybear(t *TraceWriter, r *Rng, tier string) {
 		n := 1 << lg
 		d := babybearfft.NewDomain(uint64(n))
 		for v := 0; v < 4; v++ {
-			a := make([]babybear.Element, n)
+			// a window into a larger array at an offset that moves with the size and the variant (a fresh allocation is
+			// 64-byte aligned, a window is not: the vector kernels must not assume alignment)
+			off := (lg + v) % 4
+			a := make([]babybear.Element, n+off+3)[off : off+n]
 			for i := range a {
 				a[i] = elem((i*7 + v) % 23)
 			}
